@@ -21,8 +21,12 @@ func init() {
 	hgC18 = func(r *Result, th bool, rng *rand.Rand) { runHGWith(r, th, "C18", rng) }
 }
 
+// oracles of other properties whose failure also refutes the property being checked (C19: two
+// nodes deciding differently means two quorums did not intersect in an honest validator)
+var adoptOracles = map[string]bool{}
+
 func (r *Result) violateFor(prop, what, key string, replay interface{}) {
-	if prop == r.Property {
+	if prop == r.Property || adoptOracles[prop] {
 		r.Violate("impl-violation", what, key, replay)
 	} else {
 		r.Inc("other_property_violations_"+prop, 1)
@@ -411,6 +415,11 @@ func measure(r *Result, sc *scenario) (nontrivial map[string]bool) {
 	}
 	r.Inc("rounds_decided", decided)
 	r.Inc("late_witnesses", late)
+	r.Inc("steps_with_election_in_coin_round", sc.d.coinSteps)
+	if sc.d.coinSteps > 0 {
+		r.Inc("scenarios_reaching_a_coin_round", 1)
+	}
+	r.Inc(fmt.Sprintf("longest_election_%d_rounds", sc.d.maxElection), 1)
 	r.Inc("events_into_processed_rounds", sc.d.oldRoundEvents)
 	r.Inc("witnesses_into_processed_rounds", sc.d.lateWitnesses)
 	r.Inc("steps_with_a_round_decided_before_an_earlier_one", sc.d.outOfOrderSteps)
@@ -496,6 +505,30 @@ func runHGWith(r *Result, thorough bool, prop string, rng *rand.Rand) {
 		}
 		r.Compare(sc.cs[0])
 		sc.close()
+	}
+	if prop != "C18" {
+		// elections prolonged by an adversarial scheduler (split votes, coin rounds)
+		adv := 4
+		if thorough {
+			adv = 24
+		}
+		for i := 0; i < adv; i++ {
+			sc, reached := buildAdversarialScenario(rng, thorough)
+			r.Inc("adversarial_orders_holding_back_a_decider", boolInt(len(sc.nodes) > 0 && sc.heldBack > 0))
+			checkOracles(r, sc)
+			nt := measure(r, sc)
+			r.Count(sc.canon, nt[prop])
+			r.Inc("adversarial_scenarios", 1)
+			r.Inc(fmt.Sprintf("adversarial_election_lasting_%d_rounds", reached), 1)
+			r.Inc("ops", len(sc.cs[0].Ops))
+			for _, op := range sc.cs[0].Ops {
+				if strings.HasPrefix(op, "HG dag ") {
+					r.Inc("declarative_model_views_compared", 1)
+				}
+			}
+			r.Compare(sc.cs[0])
+			sc.close()
+		}
 	}
 	for i := 0; i < cases; i++ {
 		dynamic := (prop == "C01" || prop == "C02" || prop == "C04") && i%3 == 2
